@@ -13,7 +13,7 @@ Tie (checked on every run, besides the translator `translator/gen_smat.py`):
           arithmetic, `points = ...`, downsample, subset_neuron, recalculate_tangents, copy, pickle, exact unit conversion,
           reads that cache the kd-tree; every call == Lean definition on the objects' CURRENT points / tangents / alpha; the
           Lean cache model (Model/DpCache.lean with the invalidation flags of Gen/DpTree.lean) predicts which kd-tree
-          queries are answered by a stale tree (only the two known downsample / subset findings may be)
+          queries are answered by a stale tree (none, with the flags of the current source)
   smart   (harness/c06x.py) nblast_smart: cell == full-definition score where navis' mask is True, == definition on the
           factor-10 down-sampled clouds elsewhere; criterion='score': mask == (pre >= t)
   options of the nblast stream: ids as str / mixed / numpy ints, single Dotprops instead of NeuronList, `smat` as a
@@ -46,14 +46,6 @@ INF = float('inf')
 TOL64 = Fraction(1, 2 ** 40)
 SIG_A = 'nblast/use_alpha=True/smat=auto/normalised>1/matched-dot-bin-above-self-bin'
 SIG_B = 'nblast/use_alpha=True/smat=auto/normalised>1/low-alpha-self-cell-not-maximal'
-SIG_UNITS = 'nblast/smat=auto/units=None/check_microns-TypeError'
-
-
-def units_none_error(e, smat, neurons):
-    """the known preflight failure: `check_microns` does `list(n._unit_str)` on a unit-less neuron (smat='auto' only)"""
-    return (isinstance(e, TypeError) and 'NoneType' in str(e) and isinstance(smat, str) and smat == 'auto'
-            and any(getattr(n, '_unit_str', 1) is None for n in neurons))
-
 
 # ---------------------------------------------------------------------------------------------
 # tokens
@@ -714,12 +706,7 @@ def case_nblast(ctx, case):
     try:
         df = run_nblast(fn_call, qs, ts, cfg, smat, dtype, opt)
     except Exception as e:   # noqa
-        us = opt.get('units') or []
-        known = isinstance(e, TypeError) and 'NoneType' in str(e) and smat == 'auto' if isinstance(smat, str) else False
-        known = bool(known) and (None in us) and not opt.get('smat_obj')
-        ctx.oracle(False, f'{fn_call} raised {type(e).__name__}: {e}'
-                          + (" (a Dotprops without units — the constructor's default — makes the preflight `check_microns` fail)" if known else ''),
-                   case, signature=SIG_UNITS if known else None)
+        ctx.oracle(False, f'{fn_call} raised {type(e).__name__}: {e}', case)
         return
     both = mode == 'both'
     # ---- the definition, evaluated by the Lean model, compared in Rat by the driver --------------------------
@@ -878,9 +865,6 @@ def gen_nblast(ctx, r, force=None):
         opt['smat_obj'] = True
     if r.random() < 0.3:
         opt['units'] = [r.choice(UNITS) for _ in range(3)]
-        if tab['kind'] == 'auto' and not opt.get('smat_obj'):
-            # unit-less neurons + smat='auto' is the known preflight failure (fixed witness below); keep the scores reachable
-            opt['units'] = [u or 'um' for u in opt['units']]
     if r.random() < 0.12 and cfg['precision'] == 64 and eps_free(qs + ts):
         cfg['approx_nn'] = True
     return dict(fn=fn, q=qs, t=ts, cfg=cfg, table=tab, dtype=dtype, opt={k: v for k, v in opt.items() if v})
@@ -1046,7 +1030,7 @@ def witness_cases():
     cfg = dict(mode='forward', normalized=True, use_alpha=True, limit_dist=None, precision=64)
     yield dict(fn='nblast', q=[qa], t=[ta], cfg=cfg, table=dict(kind='auto'), witness='A')
     yield dict(fn='nblast', q=[qb], t=[tb], cfg=cfg, table=dict(kind='auto'), witness='B')
-    # unit-less dotprops (the constructor's default) and the default table: the preflight raises (known finding)
+    # unit-less dotprops (the constructor's default) and the default table (former preflight TypeError, fixed df8a1f3)
     yield dict(fn='nblast', q=[dict(qa, alpha=[1.0] * 4)], t=[ta], cfg=dict(cfg, use_alpha=False), table=dict(kind='auto'),
                opt=dict(units=[None]), witness='units-none')
 
